@@ -13,12 +13,16 @@ git apply $S/patch.diff || { echo "patch does not apply"; }
 echo "== demo WITH patch"; go test ${SEEDTAGS} -count=1 -run "$demorun" ./$demopkg/ 2>&1 | tail -4 | cut -c1-300
 rm $demopkg/zz_seed_demo_test.go
 echo "== existing tests WITH patch"; go build ./... && go test ${SEEDTAGS} -count=1 $pkgs 2>&1 | grep -E "^(ok|FAIL|---)" | head
-cd /verif; git -C /repo worktree remove --force $WT
+cd /verif
 echo "== checks against the seeded change"
-git -C /repo apply $S/patch.diff
+# The patched tree is the scratch worktree (VERIF_REPO), so that checks other
+# people run against /repo at the same time are not disturbed. Without
+# concurrency `git -C /repo apply` / `git -C /repo checkout -- .` is equivalent.
+( cd $WT && git checkout -q -- . && git clean -fdq && git apply $S/patch.diff ) || echo "patch does not apply"
 for c in $checks; do
-  out=$(VERIF_EVIDENCE_DEV=1 VERIF_PAR=${VERIF_PAR:-8} ./check $c 2>&1); rc=$?
+  out=$(VERIF_REPO=$WT VERIF_EVIDENCE_DEV=1 VERIF_PAR=${VERIF_PAR:-8} ./check $c 2>&1); rc=$?
   echo "CHECK $c rc=$rc $(echo "$out" | grep -m1 -E 'rapid\] (failed|panic) after' | cut -c1-260)"
+  [ $rc -eq 2 ] && echo "$out" | tail -5 | cut -c1-300
 done
-git -C /repo checkout -- .
+git -C /repo worktree remove --force $WT
 git -C /repo status --short | head -3
